@@ -292,7 +292,8 @@ fn gen_points(rng: &mut Rng, tier: Tier) -> Sc {
     }
     let kmax = *rng.pick(&[3usize, 10, 50, 200]);
     let k = 1 + rng.below(kmax);
-    let mut subset: Vec<usize> = (0..n).filter(|_| rng.chance(0.5)).collect();
+    // a proper subset, or sometimes every index once (in any order: still "index-remapped")
+    let mut subset: Vec<usize> = if rng.chance(0.15) { (0..n).collect() } else { (0..n).filter(|_| rng.chance(0.5)).collect() };
     if subset.is_empty() {
         subset.push(rng.below(n));
     }
@@ -302,9 +303,34 @@ fn gen_points(rng: &mut Rng, tier: Tier) -> Sc {
 
 fn gen_hull(rng: &mut Rng, tier: Tier) -> Sc {
     let max_n = if tier == Tier::Quick { 200 } else { 2000 };
+    if rng.chance(0.12) {
+        // star with three far spikes: the convex hull is a triangle, the polygon has many vertices
+        let inner = 3 * (1 + rng.below(6));
+        let n = 3 + inner;
+        let c = [rng.uniform(-5.0, 5.0), rng.uniform(-5.0, 5.0)];
+        let rot = rng.uniform(0.0, std::f64::consts::TAU);
+        let mut pts: Vec<[f64; 2]> = Vec::new();
+        let per = inner / 3;
+        for s in 0..3 {
+            let a0 = rot + s as f64 * std::f64::consts::TAU / 3.0;
+            pts.push([c[0] + 3.0 * a0.cos(), c[1] + 3.0 * a0.sin()]);
+            for j in 0..per {
+                let a = a0 + (j + 1) as f64 / (per + 1) as f64 * std::f64::consts::TAU / 3.0;
+                let r = rng.uniform(0.3, 0.9);
+                pts.push([c[0] + r * a.cos(), c[1] + r * a.sin()]);
+            }
+        }
+        debug_assert_eq!(pts.len(), n);
+        if rng.chance(0.5) {
+            pts.reverse();
+        }
+        let s = rng.below(pts.len());
+        pts.rotate_left(s);
+        return Sc::Hull { label: "three-spike-star".into(), pts, polygon: true, pivot: None, pivot_mode: (0, 0, 0) };
+    }
     if rng.chance(0.4) {
         // simple (star-shaped) polygon given in order, either direction, any start vertex
-        let n = 4 + rng.below(60);
+        let n = 3 + rng.below(60);
         let c = [rng.uniform(-5.0, 5.0), rng.uniform(-5.0, 5.0)];
         let mut angs: Vec<f64> = (0..n).map(|i| (i as f64 + rng.uniform(0.1, 0.9)) / n as f64 * std::f64::consts::TAU).collect();
         angs.sort_by(|a, b| a.partial_cmp(b).unwrap());
